@@ -391,7 +391,9 @@ func (g *wgen) gen() {
 			}
 			if r.Chance(1, 2) {
 				extra := r.Pick(keyPool)
-				d.w(f, "        include:\n          - ")
+				d.w(f, "        ")
+				d.n(f, "matrix-keyword", "include")
+				d.w(f, ":\n          - ")
 				d.n(f, "matrix-key:def", matrix[0])
 				d.w(f, ": a\n            ")
 				dup := false
@@ -408,7 +410,9 @@ func (g *wgen) gen() {
 				matrix = append(matrix, extra)
 			}
 			if r.Chance(1, 3) {
-				d.w(f, "        exclude:\n          - ")
+				d.w(f, "        ")
+				d.n(f, "matrix-keyword", "exclude")
+				d.w(f, ":\n          - ")
 				d.n(f, "matrix-key:use", matrix[0])
 				d.w(f, ": a\n")
 				if r.Chance(1, 3) {
@@ -424,7 +428,9 @@ func (g *wgen) gen() {
 					d.w(f, ": b\n")
 				}
 			} else if hasObj && r.Chance(1, 2) {
-				d.w(f, "        exclude:\n          - cfg_obj:\n              ")
+				d.w(f, "        ")
+				d.n(f, "matrix-keyword", "exclude")
+				d.w(f, ":\n          - cfg_obj:\n              ")
 				d.n(f, "matrix-objkey:use", "image")
 				d.w(f, ": c\n")
 			}
@@ -463,9 +469,16 @@ func (g *wgen) gen() {
 			id   string
 		}
 		var plan []stepPlan
+		twinDone := false
 		ids := g.pick(stepPool, 3)
 		for si := 0; si < nSteps; si++ {
-			p := stepPlan{kind: r.Intn(5)}
+			p := stepPlan{kind: r.Intn(7)}
+			if p.kind == 6 && twinDone {
+				p.kind = 3
+			}
+			if p.kind == 6 {
+				twinDone = true
+			}
 			if r.Chance(1, 2) && len(ids) > 0 {
 				p.id, ids = ids[0], ids[1:]
 			}
@@ -576,6 +589,35 @@ func (g *wgen) gen() {
 					d.n(f, "popular-action-input:use", "node-version")
 					d.w(f, ": 20\n")
 				}
+			case 5: // the script of actions/github-script is checked for untrusted inputs like a run: script
+				line("uses: actions/github-script@v7\n")
+				line("with:\n")
+				d.w(f, "          ")
+				d.n(f, "popular-action-input:use", "script")
+				d.w(f, ": console.log('")
+				d.e(f, r.Pick([]string{"github.event.pull_request.title", "github.head_ref", "github.event.issue.body"}))
+				d.w(f, "')\n")
+				if r.Chance(1, 2) {
+					d.w(f, "          ")
+					d.n(f, "popular-action-input:use", "github-token")
+					d.w(f, ": ")
+					d.e(f, "secrets.GITHUB_TOKEN")
+					d.w(f, "\n")
+				}
+			case 6: // two more steps whose ids are built with a placeholder and are the same id
+				if p.id == "" {
+					ph := r.Pick([]string{"github.job", "runner.os"})
+					for _, pre := range []string{"twin", "twin"} {
+						d.w(f, "      - id: ")
+						d.n(f, "step-id:def", pre)
+						d.w(f, "-")
+						d.e(f, ph)
+						d.w(f, "\n        run: echo\n")
+					}
+					first = false
+					break
+				}
+				fallthrough
 			default:
 				line("run: echo ")
 				d.e(f, g.stepExpr(j, needs, matrix, steps, stepIDs, jenv))
